@@ -603,6 +603,14 @@ def run_C08(ctx, R):
     _per_config(ctx, R, own.own7)
     _per_config(ctx, R, own.own4_dangling)
     _per_config(ctx, R, own.ref_constructors)      # a failed step must not release what a half-built reference borrows
+    from .rules import outbuf
+
+    def realloc_fail(units, r):
+        tmp = Results(config=r.config)
+        outbuf.out4(units, tmp)
+        r.obs.extend(o for o in tmp.obs if o.key.startswith('realloc-fail'))
+        r.floor('OUT4', 'reallocations in ensure', len(r.obs), 1)
+    _per_config(ctx, R, realloc_fail)              # a refused reallocate leaves the old block allocated: ensure releases it
 
 
 PROPERTIES = {
